@@ -44,130 +44,145 @@ func sampleRadius(r *rand.Rand, lat float64) float64 {
 func c14Run(c *mon.Ctx) {
 	n := c.Pick(12000000, 250000000) / c.NShards
 	r := c.Rng
-	const cm = 0.01
 	for i := 0; i < n; i++ {
 		lat, lon := sampleLoc(r)
 		m := sampleRadius(r, lat)
 		if m > piR {
 			m = piR
 		}
-		c.SetCase(func() interface{} { return c14Case{Lat: lat, Lon: lon, Meters: m} })
-		c.Try(func() {
-			minLat, minLon, maxLat, maxLon := geo.RectFromCenter(lat, lon, m)
-			rect := []float64{minLat, minLon, maxLat, maxLon}
-			c.Eval()
-			mk := func(detail string) c14Case { return c14Case{Lat: lat, Lon: lon, Meters: m, Rect: rect, Detail: detail} }
-			for _, v := range rect {
-				if math.IsNaN(v) {
-					c.Violation("nan", "RectFromCenter returned NaN", fmt.Sprintf("%+v", mk("")))
-					return
+		c14Tuple(c, r, lat, lon, m, i)
+		if i%8 == 0 {
+			// the answer for one call must not depend on the calls made before it:
+			// same latitude and radius again at other longitudes, across the antimeridian and back
+			for _, l2 := range []float64{179.9, -179.95, lon, 0, 180 - m/sphere.R*90/math.Pi, -lon} {
+				if l2 >= -180 && l2 <= 180 {
+					c14Tuple(c, r, lat, l2, m, i+7)
 				}
 			}
-			eps := 1e-9
-			if minLat < -90-eps || maxLat > 90+eps || minLon < -180-eps || maxLon > 180+eps || minLat > maxLat || minLon > maxLon {
-				c.Violation("bounds", "rectangle outside the world bounds or inverted", mk(""))
-				return
-			}
-			if m < 1 {
-				c.Count("sub_metre_radii")
-				return
-			}
-			rho := m / sphere.R
-			// full longitude range when the disc reaches a pole by more than 1 cm
-			reach := math.Abs(lat)*math.Pi/180 + rho - math.Pi/2
-			if reach*sphere.R > cm {
-				c.Count("discs_reaching_a_pole")
-				if minLon > -180+1e-9 || maxLon < 180-1e-9 {
-					c.Violation("pole-not-widened", "disc reaches a pole but the rectangle does not span all longitudes", mk(""))
-					return
-				}
-			}
-			// probes: rim at cardinal, random and tangent bearings, interior
-			type probe struct{ lat, lon float64 }
-			var ps []probe
-			add := func(d, brg float64) {
-				a, b := sphere.Dest(lat, lon, d, brg)
-				ps = append(ps, probe{a, b})
-			}
-			rim := m * (1 - 1e-13)
-			for _, b := range []float64{0, 90, 180, 270} {
-				add(rim, b)
-			}
-			for k := 0; k < 8; k++ {
-				add(rim, r.Float64()*360)
-				add(m*math.Sqrt(r.Float64()), r.Float64()*360)
-			}
-			// tangent longitudes (the extremal east/west points), when the disc
-			// does not reach a pole
-			if reach < 0 {
-				sl := math.Sin(lat * math.Pi / 180)
-				latT := math.Asin(sl/math.Cos(rho)) * 180 / math.Pi
-				dl := math.Asin(math.Sin(rho)/math.Cos(lat*math.Pi/180)) * 180 / math.Pi
-				if !math.IsNaN(latT) && !math.IsNaN(dl) {
-					for _, s := range []float64{1, -1} {
-						for _, f := range []float64{1, 1 - 1e-12, 1 - 1e-9} {
-							ps = append(ps, probe{latT, lon + s*dl*f})
-						}
-					}
-					// bearings around the tangent bearing
-					bt := sphere.Bearing(lat, lon, latT, lon+dl)
-					for _, d := range []float64{0, 1e-6, -1e-6, 1e-3, -1e-3} {
-						add(rim, bt+d)
-						add(rim, 360-bt+d)
-					}
-				}
-			}
-			worst := 0.0
-			for _, p := range ps {
-				plon := p.lon
-				for plon > 180 {
-					plon -= 360
-				}
-				for plon < -180 {
-					plon += 360
-				}
-				d := sphere.Dist(lat, lon, p.lat, plon)
-				if d > m {
-					continue // not a point of the disc: no claim
-				}
-				c.Count("probes_in_disc")
-				// how far outside, on the ground
-				out := 0.0
-				if p.lat < minLat {
-					out = math.Max(out, (minLat-p.lat)*math.Pi/180*sphere.R)
-				}
-				if p.lat > maxLat {
-					out = math.Max(out, (p.lat-maxLat)*math.Pi/180*sphere.R)
-				}
-				cl := math.Cos(p.lat * math.Pi / 180)
-				if cl*sphere.R > cm { // at the pole the longitude carries no information
-					if plon < minLon || plon > maxLon {
-						// longitude is periodic: distance to the nearer end of the interval
-						ad := func(a, b float64) float64 { return math.Abs(math.Mod(a-b+540, 360) - 180) }
-						out = math.Max(out, math.Min(ad(plon, minLon), ad(plon, maxLon))*math.Pi/180*sphere.R*cl)
-					}
-				}
-				if out > worst {
-					worst = out
-				}
-				if out > cm {
-					cs := c14Case{Lat: lat, Lon: lon, Meters: m, Rect: rect, Probe: []float64{p.lat, plon}, ProbeDist: d, OutsideBy: out}
-					if m < 2 && out < 0.03 {
-						c.KnownOrViolation("F18", "not-covered", "radius 1-2 m: a rim point lies up to ~1.2 cm outside the rectangle (cancellation in acos)", cs)
-					} else {
-						c.Violation("not-covered", fmt.Sprintf("a location within the radius lies %.4g m outside the rectangle", out), cs)
-					}
-					break
-				}
-			}
-			if reach*sphere.R > -1000 || m < 3 || 180-math.Abs(lon) < 1e-3 || piR-m < 1000 {
-				c.NonTrivial(uint64(mon.NewH().U(math.Float64bits(lat)).U(math.Float64bits(lon)).U(math.Float64bits(m))))
-			}
-			if i < 3 && c.WantSample() {
-				c.Sample(c14Case{Lat: lat, Lon: lon, Meters: m, Rect: rect, Detail: fmt.Sprintf("%d probes, worst outside-by %.3g m", len(ps), worst)})
-			}
-		})
+			c.Count("same_parallel_sequences")
+		}
 	}
+}
+
+// c14Tuple judges one (centre, radius) call.
+func c14Tuple(c *mon.Ctx, r *rand.Rand, lat, lon, m float64, i int) {
+	const cm = 0.01
+	c.SetCase(func() interface{} { return c14Case{Lat: lat, Lon: lon, Meters: m} })
+	c.Try(func() {
+		minLat, minLon, maxLat, maxLon := geo.RectFromCenter(lat, lon, m)
+		rect := []float64{minLat, minLon, maxLat, maxLon}
+		c.Eval()
+		mk := func(detail string) c14Case { return c14Case{Lat: lat, Lon: lon, Meters: m, Rect: rect, Detail: detail} }
+		for _, v := range rect {
+			if math.IsNaN(v) {
+				c.Violation("nan", "RectFromCenter returned NaN", fmt.Sprintf("%+v", mk("")))
+				return
+			}
+		}
+		eps := 1e-9
+		if minLat < -90-eps || maxLat > 90+eps || minLon < -180-eps || maxLon > 180+eps || minLat > maxLat || minLon > maxLon {
+			c.Violation("bounds", "rectangle outside the world bounds or inverted", mk(""))
+			return
+		}
+		if m < 1 {
+			c.Count("sub_metre_radii")
+			return
+		}
+		rho := m / sphere.R
+		// full longitude range when the disc reaches a pole by more than 1 cm
+		reach := math.Abs(lat)*math.Pi/180 + rho - math.Pi/2
+		if reach*sphere.R > cm {
+			c.Count("discs_reaching_a_pole")
+			if minLon > -180+1e-9 || maxLon < 180-1e-9 {
+				c.Violation("pole-not-widened", "disc reaches a pole but the rectangle does not span all longitudes", mk(""))
+				return
+			}
+		}
+		// probes: rim at cardinal, random and tangent bearings, interior
+		type probe struct{ lat, lon float64 }
+		var ps []probe
+		add := func(d, brg float64) {
+			a, b := sphere.Dest(lat, lon, d, brg)
+			ps = append(ps, probe{a, b})
+		}
+		rim := m * (1 - 1e-13)
+		for _, b := range []float64{0, 90, 180, 270} {
+			add(rim, b)
+		}
+		for k := 0; k < 8; k++ {
+			add(rim, r.Float64()*360)
+			add(m*math.Sqrt(r.Float64()), r.Float64()*360)
+		}
+		// tangent longitudes (the extremal east/west points), when the disc
+		// does not reach a pole
+		if reach < 0 {
+			sl := math.Sin(lat * math.Pi / 180)
+			latT := math.Asin(sl/math.Cos(rho)) * 180 / math.Pi
+			dl := math.Asin(math.Sin(rho)/math.Cos(lat*math.Pi/180)) * 180 / math.Pi
+			if !math.IsNaN(latT) && !math.IsNaN(dl) {
+				for _, s := range []float64{1, -1} {
+					for _, f := range []float64{1, 1 - 1e-12, 1 - 1e-9} {
+						ps = append(ps, probe{latT, lon + s*dl*f})
+					}
+				}
+				// bearings around the tangent bearing
+				bt := sphere.Bearing(lat, lon, latT, lon+dl)
+				for _, d := range []float64{0, 1e-6, -1e-6, 1e-3, -1e-3} {
+					add(rim, bt+d)
+					add(rim, 360-bt+d)
+				}
+			}
+		}
+		worst := 0.0
+		for _, p := range ps {
+			plon := p.lon
+			for plon > 180 {
+				plon -= 360
+			}
+			for plon < -180 {
+				plon += 360
+			}
+			d := sphere.Dist(lat, lon, p.lat, plon)
+			if d > m {
+				continue // not a point of the disc: no claim
+			}
+			c.Count("probes_in_disc")
+			// how far outside, on the ground
+			out := 0.0
+			if p.lat < minLat {
+				out = math.Max(out, (minLat-p.lat)*math.Pi/180*sphere.R)
+			}
+			if p.lat > maxLat {
+				out = math.Max(out, (p.lat-maxLat)*math.Pi/180*sphere.R)
+			}
+			cl := math.Cos(p.lat * math.Pi / 180)
+			if cl*sphere.R > cm { // at the pole the longitude carries no information
+				if plon < minLon || plon > maxLon {
+					// longitude is periodic: distance to the nearer end of the interval
+					ad := func(a, b float64) float64 { return math.Abs(math.Mod(a-b+540, 360) - 180) }
+					out = math.Max(out, math.Min(ad(plon, minLon), ad(plon, maxLon))*math.Pi/180*sphere.R*cl)
+				}
+			}
+			if out > worst {
+				worst = out
+			}
+			if out > cm {
+				cs := c14Case{Lat: lat, Lon: lon, Meters: m, Rect: rect, Probe: []float64{p.lat, plon}, ProbeDist: d, OutsideBy: out}
+				if m < 2 && out < 0.03 {
+					c.KnownOrViolation("F18", "not-covered", "radius 1-2 m: a rim point lies up to ~1.2 cm outside the rectangle (cancellation in acos)", cs)
+				} else {
+					c.Violation("not-covered", fmt.Sprintf("a location within the radius lies %.4g m outside the rectangle", out), cs)
+				}
+				break
+			}
+		}
+		if reach*sphere.R > -1000 || m < 3 || 180-math.Abs(lon) < 1e-3 || piR-m < 1000 {
+			c.NonTrivial(uint64(mon.NewH().U(math.Float64bits(lat)).U(math.Float64bits(lon)).U(math.Float64bits(m))))
+		}
+		if i < 3 && c.WantSample() {
+			c.Sample(c14Case{Lat: lat, Lon: lon, Meters: m, Rect: rect, Detail: fmt.Sprintf("%d probes, worst outside-by %.3g m", len(ps), worst)})
+		}
+	})
 }
 
 func c14Replay(kind string, raw json.RawMessage) (bool, string) {
@@ -212,6 +227,6 @@ func init() {
 		Assumptions: []string{"reference: internal/sphere", "no tightness is demanded of the rectangle, only coverage", "known finding F18 (radius below 2 m, overshoot below 3 cm) is matched with both bounds"},
 		Run:         c14Run,
 		Replay:      c14Replay,
-		MustSee:     []string{"probes_in_disc", "discs_reaching_a_pole", "sub_metre_radii"},
+		MustSee:     []string{"probes_in_disc", "discs_reaching_a_pole", "sub_metre_radii", "same_parallel_sequences"},
 	})
 }
